@@ -83,7 +83,7 @@ def strip_comments(s):
 def items(path):
     """top-level items of a Rust file as {key: digest}; #[cfg(test)] items and doc attributes dropped"""
     try:
-        s = strip_comments(open(path, encoding="utf-8").read())
+        s = strip_comments(open(path, encoding="utf-8", newline="").read())
     except OSError:
         return {}
     res = {}
@@ -221,14 +221,14 @@ def crate_items():
     """facts about the crates as a whole that decide WHICH code is compiled and WHICH function a name refers to, wherever
     they occur (also inside inline modules and in files no property is anchored in): the list of source files, every
     `mod` declaration with its attributes (#[path], #[cfg]), every impl header, every macro_rules! name, every include!"""
-    files, mods, impls, macros, includes = [], [], [], [], []
+    files, mods, impls, macros, includes, linkage = [], [], [], [], [], []
     for base in SRC_DIRS:
         for d, _, names in os.walk(os.path.join(REPO, base)):
             for nm in sorted(names):
                 rel = os.path.relpath(os.path.join(d, nm), REPO)
                 files.append(rel)
                 try:
-                    txt = strip_comments(open(os.path.join(d, nm), encoding="utf-8").read())
+                    txt = strip_comments(open(os.path.join(d, nm), encoding="utf-8", newline="").read())
                 except (OSError, UnicodeDecodeError):
                     continue
                 for m in re.finditer(r"((?:#!?\[[^\]]*\]\s*)*)(?:pub(?:\([a-z ]+\))?\s+)?mod\s+(\w+)\s*([;{])", txt):
@@ -243,6 +243,11 @@ def crate_items():
                     macros.append("%s: %s" % (rel, m.group(1)))
                 for m in re.finditer(r"\binclude(?:_str|_bytes)?!\s*\(([^)]*)\)", txt):
                     includes.append("%s: %s" % (rel, re.sub(r"\s+", "", m.group(1))))
+                # anything that reaches below the language: symbol names, sections, foreign items, assembly, raw unsafety
+                for m in re.finditer(r"no_mangle|export_name|link_section|link_name|#\[\s*link\b|\bextern\s*\"|\bextern\s+crate|"
+                                     r"global_asm!|\basm!|#\[\s*used\b|#\[\s*naked\b|\bstatic\s+mut\b|\bunsafe\b|global_allocator|panic_handler|"
+                                     r"#!\[\s*feature|lang\s*=", txt):
+                    linkage.append("%s: %s" % (rel, re.sub(r"\s+", "", m.group(0))))
     dig = lambda l: hashlib.sha1("\n".join(sorted(l)).encode()).hexdigest()[:16]
     # files that change how rustc is invoked for anyone who builds the crate in place
     cfgs = []
@@ -251,7 +256,8 @@ def crate_items():
         pth = os.path.join(REPO, rel)
         if os.path.exists(pth) and rel not in ("clippy.toml", "rustfmt.toml"):
             cfgs.append("%s:%s" % (rel, hashlib.sha1(open(pth, "rb").read()).hexdigest()[:16]))
-    return {"build configuration files": dig(cfgs), "source files": dig(files), "mod declarations": dig(mods), "impl headers": dig(impls),
+    return {"build configuration files": dig(cfgs), "linkage and unsafe markers": hashlib.sha1("\n".join(sorted(linkage)).encode()).hexdigest()[:16],
+            "source files": dig(files), "mod declarations": dig(mods), "impl headers": dig(impls),
             "macro_rules names": dig(macros), "include! uses": dig(includes)}
 
 
@@ -355,6 +361,17 @@ def changed_for(pid):
         ch, ad = diff_file(cur.get(mf, {}), rec.get(mf, {}))
         out += ["%s :: %s" % (mf, k) for k in ch + ad]
     return out
+
+
+def suspicious_added(key):
+    """an added top-level item that is not obviously a plain helper: anything but a snake_case `fn` (no extern / unsafe) or a
+    SCREAMING_CASE `const`.  impl blocks and macro invocations redirect calls; a `static`, a CamelCase value or function can
+    shadow a prelude name (`Ok`, `Some`); extern functions can replace compiler-rt symbols."""
+    if re.match(r"^(pub(\([a-z]+\))? )?(const )?fn [a-z_][a-z0-9_]*$", key) and not key.split()[-1].startswith("__"):
+        return False
+    if re.match(r"^(pub(\([a-z]+\))? )?const [A-Z][A-Z0-9_]*\b", key):
+        return False
+    return True
 
 
 def added_for(pid):
